@@ -206,6 +206,18 @@ Goto(m, target) ==
            a == CurAct(m1) IN
        SetAct(m1, [a EXCEPT !.fr = <<Frame(Knot(target).body)>>])
 
+\* Parameters of knots: the arguments of a divert, a tunnel call or a thread start are evaluated where the divert stands
+\* and become temporaries of the call-stack element the knot runs in (the current one for a divert and for a thread -
+\* whose stack is a copy -, a new one for a tunnel)
+ArgsOf(s) == IF "args" \in DOMAIN s THEN s.args ELSE <<>>
+ArgVals(m, s) == LET as == ArgsOf(s) IN [i \in 1..Len(as) |-> Eval(m, as[i])]
+Bound(target, vals, temps) ==
+  IF ~IsKnot(target) \/ vals = <<>> THEN temps
+  ELSE LET ps == Knot(target).params IN
+       [n \in {ps[i] : i \in 1..Len(ps)} |-> LET i == CHOOSE i \in 1..Len(ps) : ps[i] = n IN IF i <= Len(vals) THEN vals[i] ELSE I(0)] @@ temps
+BadArgs(vals) == \E i \in 1..Len(vals) : vals[i].t = "error"
+ArgError(vals) == vals[CHOOSE i \in 1..Len(vals) : vals[i].t = "error"].v
+
 \* assignment to a temporary of the current activation if there is one of that name, else to the global
 Assign(m, x, v) ==
   LET a == CurAct(m) IN
@@ -330,19 +342,27 @@ Exec(m, s) ==
                                    [] s.mode = "once" -> IF n >= len THEN 0 ELSE n + 1
                           m1 == [m EXCEPT !.seqc = Put(m.seqc, s.id, n + 1)] IN
                       IF idx = 0 THEN Advance(m1) ELSE PushFrame(Advance(m1), s.alts[idx])
-    [] s.k = "div" -> Goto(m, s.t)
+    [] s.k = "div" -> LET vals == ArgVals(m, s)
+                          m1 == Goto(m, s.t)
+                          a == CurAct(m1) IN
+                      IF BadArgs(vals) THEN Fail(m, ArgError(vals))
+                      ELSE IF vals = <<>> \/ m1.err # "" THEN m1 ELSE SetAct(m1, [a EXCEPT !.temps = Bound(s.t, vals, a.temps)])
     [] s.k = "gl"  -> Advance(Visit(m, s.label))
     [] s.k = "tun" -> IF ~IsKnot(s.t) THEN Fail(m, "tunnel target not found")
-                      ELSE LET m1 == Advance(Enter(m, s.t)) IN
-                           SetThread(m1, <<Act("tunnel", Knot(s.t).body)>> \o CurThread(m1))
+                      ELSE LET vals == ArgVals(m, s)
+                               m1 == Advance(Enter(m, s.t)) IN
+                           IF BadArgs(vals) THEN Fail(m, ArgError(vals))
+                           ELSE SetThread(m1, <<[Act("tunnel", Knot(s.t).body) EXCEPT !.temps = Bound(s.t, vals, <<>>)]>> \o CurThread(m1))
     [] s.k = "tret" -> LET t == CurThread(m) IN
                        IF Head(t).kind # "tunnel" THEN Fail(m, "tunnel return outside a tunnel") ELSE SetThread(m, Tail(t))
     [] s.k = "thr" -> IF ~IsKnot(s.t) THEN Fail(m, "thread target not found")
-                      ELSE LET m1 == Advance(Enter(m, s.t))
+                      ELSE LET vals == ArgVals(m, s)
+                               m1 == Advance(Enter(m, s.t))
                                t == CurThread(m1)
                                a == Head(t)
-                               fork == <<[a EXCEPT !.fr = <<Frame(Knot(s.t).body)>>, !.kind = IF a.kind = "root" THEN "thread" ELSE a.kind]>> \o Tail(t) IN
-                           [m1 EXCEPT !.th = <<fork>> \o m1.th]
+                               fork == <<[a EXCEPT !.fr = <<Frame(Knot(s.t).body)>>, !.kind = IF a.kind = "root" THEN "thread" ELSE a.kind,
+                                                   !.temps = Bound(s.t, vals, a.temps)]>> \o Tail(t) IN
+                           IF BadArgs(vals) THEN Fail(m, ArgError(vals)) ELSE [m1 EXCEPT !.th = <<fork>> \o m1.th]
     [] s.k = "ch"  -> \* the choices are generated; what follows them in the source belongs to the gather (rest), which is
                       \* reached only through a choice: this thread of the flow is over
                       LET m1 == GenChoices(m, s.cs, 1, s.rest) IN
